@@ -20,7 +20,9 @@ RULE = ("cases: minres called directly on SPD matrices with prescribed spectra (
         "budget exhausted, relative residual <= 1e-9 kappa at full Krylov dimension); zero right-hand sides give exactly zero; "
         "x(c b) = c x(b); x(b1 + b2) = x(b1) + x(b2) at full dimension; leading shift dimension present iff several shifts, 1-D rhs gives "
         "1-D columns. quadrature: sum_q w_q solves_q = K^-1/2 b (K^1/2 b) against the dense symmetric root; sqrt_inv_matmul twice = A^-1 R; "
-        "with lhs also diag(L A^-1 L^T); tolerance 1e-4 for kappa <= 1e2 or n <= 8, 3e-2 otherwise. distinct key = (clause, spectrum "
+        "with lhs also diag(L A^-1 L^T); the update criterion on which MINRES stopped is recomputed from the recorded iterates (mean over "
+        "all systems of ||x_i - x_(i-1)|| / ||x_i||), batches include members of very different scale; "
+        " tolerance 1e-4 for kappa <= 1e2 or n <= 8, 3e-2 otherwise. distinct key = (clause, spectrum "
         "family, kappa decade, shifts kind, preconditioner, dtype, batch rank)")
 ASSUMPTIONS = ["float64 dense solves / symmetric matrix roots are the reference", "minres.* hook events expose the iterate per iteration",
                "delta = 1e-6 (f64) / 1e-2 (f32) on the Krylov-optimal residual, calibrated on the unchanged tree"]
